@@ -120,6 +120,11 @@ def render(prog, cfg, name, seed):
             pieces = p.split_even(ct[kd], np_)
             vals_arr = np.array(vals, dtype=object).reshape(ct)
             use_nb = nb and cfg["nonblocking"]
+            opkeys = p._keys(select(st, ct, sd), v.ndims)
+            if pending and ((opkeys & p.pend_put.get(vid, set())) or not use_nb):
+                # never two writes of one element in flight, and a blocking put does not overtake pending ones
+                p.complete("wait", True, {r: "all" for r in range(np_)})
+                pending = False
             for r, (a, b) in enumerate(pieces):
                 sst, cct = list(st), list(ct)
                 sst[kd] = st[kd] + a * sd[kd]
@@ -131,22 +136,38 @@ def render(prog, cfg, name, seed):
                 if r == 0:
                     errlines.append((oi, line))
             if use_nb:
-                p.complete("wait", True, {r: "all" for r in range(np_)})
+                # several nonblocking puts may accumulate (in any file order, possibly from one rank only) before one
+                # collective wait_all completes them
+                pending = True
+                if rng.random() < 0.4:
+                    p.complete("wait", True, {r: "all" for r in range(np_)})
+                    pending = False
         elif op[0] == "get":
             _, vid, st, ct, mt, _, form, _, _ = op
+            if pending:
+                p.complete("wait", True, {r: "all" for r in range(np_)})
+                pending = False
             p.sync3()
             for r in range(np_):
                 line, _ = p.one_access("get", r, vid, st, ct, [1] * len(ct), True, form=form, mt=mt)
                 if r == 0:
                     getlines.append((oi, line))
         elif op[0] == "redef":
+            if pending:
+                p.complete("wait", True, {r: "all" for r in range(np_)})
+                pending = False
             p.redef()
             n = op[2]
             p.emit("*", "put_att", Expect(0), f=p.f, v=-1, name=hx(b"a%d" % op[1]), mt="text", n=n, data="rep:%02x:%d" % (0x61 + op[1] % 20, n))
             p.fm.gatts.append(cs.Att(b"a%d" % op[1], 2, bytes([0x61 + op[1] % 20]) * n))
             p.enddef()
         else:
+            if pending:
+                p.complete("wait", True, {r: "all" for r in range(np_)})
+                pending = False
             p.sync3()
+    if pending:
+        p.complete("wait", True, {r: "all" for r in range(np_)})
     p.sync3()
     p.read_all()
     p.close()
